@@ -157,6 +157,7 @@ Mon == INSTANCE P_C15
 VARIABLES SA, SB, SC, lane, mon, phys, natt, budget, hist, obs
 vars == <<SA, SB, SC, lane, mon, phys, natt, budget, hist, obs>>
 Off == [on |-> FALSE]
+OffC == [on |-> FALSE, run |-> FALSE]
 Init == /\ SA = InitS /\ SB = InitS /\ SC = 0 /\ lane = [b |-> TRUE, c |-> "off", ci |-> 0]
         /\ mon = Mon!MonInit(MonParams) /\ phys = {} /\ natt = 0 /\ budget = PreBudget /\ hist = <<>> /\ obs = 0
 
@@ -170,7 +171,7 @@ Input(kind, c) ==
   /\ SB' = IF lane.b THEN InputS(SB, kind, c) ELSE SB
   /\ SC' = IF lane.c # "off" THEN InputS(SC, kind, c) ELSE SC
   /\ mon' = Mon!MonStep(mon, [e |-> kind, c |-> c, A |-> InRec(SA'), B |-> IF lane.b THEN InRec(SB') ELSE Off,
-                              C |-> IF lane.c = "on" THEN InRec(SC') ELSE Off])
+                              C |-> IF lane.c = "on" THEN InRec(SC') ELSE OffC])
   /\ hist' = Append(hist, <<kind, c>>)
   /\ obs' = [out |-> SA'.K.out, proj |-> ProjOf(SA'.cfg, SA'.K)]
   /\ budget' = budget - 1
@@ -187,11 +188,13 @@ TickWith(f, att, aidx) ==
       rb == IF lane.b THEN LoopIter(SB, f, TRUE) ELSE 0
       rc == IF lane.c # "off" THEN LoopIter(SC, f, FALSE) ELSE 0
       trec == [e |-> "t", n |-> 1, phys |-> Cardinality(phys), A |-> TickRec(ra),
-               B |-> IF lane.b THEN TickRec(rb) ELSE Off, C |-> IF lane.c = "on" THEN TickRec(rc) ELSE Off]
+               B |-> IF lane.b THEN TickRec(rb) ELSE Off,
+               C |-> IF lane.c = "on" THEN [TickRec(rc) EXCEPT !.on = TRUE] @@ [run |-> TRUE]
+                     ELSE IF lane.c = "wait" THEN [on |-> FALSE, run |-> TRUE, cb |-> rc.cb] ELSE OffC]
       mon0 == IF att THEN Mon!MonStep(mon, [e |-> "w", i |-> aidx, k |-> MonKind(f), valid |-> TRUE]) ELSE mon
       c1 == IF ra.repl /\ lane.c # "on" THEN "wait" ELSE lane.c
       ci1 == IF ra.repl /\ lane.c # "on" THEN ra.S.idx ELSE lane.ci
-      c2 == IF c1 = "wait" /\ ra.cb /\ phys = {} THEN "on" ELSE c1
+      c2 == IF c1 = "wait" /\ ra.cb /\ phys = {} /\ (ra.repl \/ (lane.c = "wait" /\ rc.cb)) THEN "on" ELSE c1
   IN /\ SA' = ra.S
      /\ SB' = IF lane.b /\ ~ra.repl THEN rb.S ELSE 0
      \* the fresh instance is created in the iteration of the reload and fed from then on (compared once "on")
@@ -535,7 +538,7 @@ def lane_cases_from_edges(p, edges_file, rng, limit, settle):
         ia = max(j for j, st in enumerate(h) if st[0] == "t" and len(st) >= 3)
         triples.add((json.dumps(h[:ia]), h[ia][1], json.dumps(h[ia + 1:])))
         script = steps + tail_steps(p, held_after(steps), settle)
-        cases.append(dict(case_of(p, "%s/e%d" % (p["name"], i), script, mon_params(p, "inuse", 1001)), pair=p["name"]))
+        cases.append(dict(case_of(p, "%s/e%d" % (p["name"], i), script, mon_params(p, "inuse", 1020)), pair=p["name"]))
     return cases, triples, len(hs), len(maximal)
 
 
@@ -569,7 +572,7 @@ def random_cases(p, rng, n, settle, nev):
             if g:
                 s.append(["t", g])
         s += tail_steps(p, down, settle)
-        cases.append(dict(case_of(p, "%s/r%d" % (p["name"], i), s, mon_params(p, "inuse", 1001)), pair=p["name"]))
+        cases.append(dict(case_of(p, "%s/r%d" % (p["name"], i), s, mon_params(p, "inuse", 1020)), pair=p["name"]))
     return cases
 
 
@@ -590,11 +593,11 @@ def run(tier, seed):
         check_texts(p, pwd)
         mod, keys, age = gen_mc(p, pwd, tier)
         t0 = time.time()
-        r = run_tlc(pwd, mod, workers=4 if tier == "quick" else 8, timeout=1500 if tier != "quick" else 900, heap="4g")
+        r = run_tlc(pwd, mod, workers=2 if tier == "quick" else 3, timeout=3000 if tier != "quick" else 900, heap="4g")
         return pwd, mod, age, r, t0
     build_harness()
     cfgdesc.keytable()
-    with ThreadPoolExecutor(max_workers=5 if tier == "quick" else 2) as ex:
+    with ThreadPoolExecutor(max_workers=3 if tier == "quick" else 2) as ex:      # <= 6 TLC worker threads in total
         explored = list(ex.map(explore, fam))
     for p, (pwd, mod, age, r, t0) in zip(fam, explored):
         if r["rc"] == 124:
@@ -620,15 +623,21 @@ def run(tier, seed):
             (p["name"], r["distinct"], inst["edges"], rr["mismatches"], inst["n_monerr"], inst["wall_s"]))
         settle = p["settle"]
         # model-level counterexamples and drifting edges are judged on the real code
-        ws = flow.witness_scripts(monerr, 30) + flow.witness_scripts(panic, 10)
+        ws = []
+        by_err = {}
+        for w in flow.witness_scripts(monerr, 10 ** 9):
+            by_err.setdefault(w["err"][:70], []).append(w)
+        for k in sorted(by_err):         # the shortest witnesses of every distinct rule, not only of the most frequent one
+            ws += by_err[k][:10]
+        ws += flow.witness_scripts(panic, 10)
         for i, w in enumerate(ws):
             steps = hist_to_steps(w["h"])
             lane_cases.append(dict(case_of(p, "%s/w%d" % (p["name"], i), steps + tail_steps(p, held_after(steps), settle),
-                                           mon_params(p, "inuse", 1001)), pair=p["name"]))
+                                           mon_params(p, "inuse", 1020)), pair=p["name"]))
         for i, d in enumerate(rr["samples"][:10]):
             steps = d["h"]
             lane_cases.append(dict(case_of(p, "%s/d%d" % (p["name"], i), steps + tail_steps(p, held_after(steps), settle),
-                                           mon_params(p, "inuse", 1001)), pair=p["name"]))
+                                           mon_params(p, "inuse", 1020)), pair=p["name"]))
         cs, triples, n_att, n_max = lane_cases_from_edges(p, edges, rng, 60 if tier == "quick" else 400, settle)
         lane_cases += cs
         all_triples += len(triples)
@@ -745,5 +754,5 @@ def scenario_pairs():
 def scenarios(pairs, tier):
     cases = []
     for name, (p, script) in scenario_pairs().items():
-        cases.append(dict(case_of(p, "scn/" + name, script, mon_params(p, "inuse", 1001)), pair="scenario " + name))
+        cases.append(dict(case_of(p, "scn/" + name, script, mon_params(p, "inuse", 1020)), pair="scenario " + name))
     return cases
